@@ -58,7 +58,7 @@ func cmdRun(args []string) {
 	argstr := fs.String("args", "", "comma separated int args")
 	workers := fs.Int("workers", runtime.NumCPU(), "workers")
 	maxPaths := fs.Int("max-paths", 0, "path cap")
-	solver := fs.String("solver", "z3", "z3 | z3-new | cvc5")
+	solver := fs.String("solver", "z3-new", "z3 | z3-new | cvc5")
 	budget := fs.Int64("budget", 5_000_000, "instruction budget per path")
 	verbose := fs.Bool("v", false, "print samples")
 	gen := fs.Bool("gen", false, "generate vt bindings first")
